@@ -3,7 +3,7 @@
    Separate extraction: one OCaml module per Coq file, written to Extract/ml/. *)
 From Coq Require Import NArith ZArith List.
 From Coq Require Extraction ExtrOcamlBasic.
-From Verif Require Import Kernel.Varint Model.PlainFrame Model.NoiseFrame Model.WireSpec Model.Conn Model.Keepalive Model.Client Model.FloatFix Model.Convert Model.CommandIR Generated.GenCommands Model.Resolver Model.Reconnect Model.Ble.
+From Verif Require Import Kernel.Varint Model.PlainFrame Model.NoiseFrame Model.WireSpec Model.Conn Model.Keepalive Model.Client Model.FloatFix Model.Convert Model.CommandIR Generated.GenCommands Model.Resolver Model.Reconnect Model.Ble Model.Subs.
 Extraction Language OCaml.
 Cd "Extract/ml".
 Separate Extraction N.add N.mul N.of_nat N.to_nat N.eqb Z.add Z.mul Z.opp
@@ -17,5 +17,6 @@ Separate Extraction N.add N.mul N.of_nat N.to_nat N.eqb Z.add Z.mul Z.opp
   CommandIR.exec CommandIR.get CommandIR.wf GenCommands.commands
   Resolver.resolve Resolver.zrun
   Reconnect.rstep Reconnect.rl_init Reconnect.backoff_seconds
-  Ble.bstep Ble.bs_init Ble.all_subscriptions Ble.handle_op.
+  Ble.bstep Ble.bs_init Ble.all_subscriptions Ble.handle_op
+  Subs.sstep.
 Cd "../..".
